@@ -1,5 +1,5 @@
 // ---- common prelude: stand-ins for std / third-party containers and leaf types (TRUSTED) ----
-//@@ trusted HashMap<K,V> stand-in: std::collections::HashMap modelled as Map<K,V> (new/insert/remove/get/get_mut/contains_key/len); K's Eq+Hash assumed to agree with structural equality
+//@@ trusted HashMap<K,V> stand-in: std::collections::HashMap modelled as Map<K,V> (new/insert/remove/get/get_mut/contains_key/len; `values()` visits every key exactly once in some fixed order, R29b); K's Eq+Hash assumed to agree with structural equality
 //@@ trusted Slab<T> stand-in: slab::Slab modelled as Map<usize,T>; vacant_entry().key() is not in the domain; insert adds exactly that key; indexing `slab[k]` requires k occupied (it panics otherwise)
 //@@ trusted derived Clone impls return a value equal to self
 
@@ -52,6 +52,20 @@ impl<K, V> HashMap<K, V> {
     #[verifier::external_body]
     pub fn contains_key(&self, k: &K) -> (r: bool)
         ensures r == self@.contains_key(*k),
+    { unimplemented!() }
+
+    /// the order in which `values()` / `iter()` visit the map: some sequence of its keys, each exactly once (R29b)
+    pub uninterp spec fn order(&self) -> Seq<K>;
+    #[verifier::external_body]
+    pub fn len(&self) -> (r: usize)
+        ensures r == self.order().len(), self.order().no_duplicates(),
+            forall|k: K| self@.contains_key(k) <==> #[trigger] self.order().contains(k),
+    { unimplemented!() }
+    /// the i-th step of `values()`
+    #[verifier::external_body]
+    pub fn value_at(&self, i: usize) -> (r: &V)
+        requires i < self.order().len(),
+        ensures self@.contains_key(self.order()[i as int]), *r == self@[self.order()[i as int]],
     { unimplemented!() }
 }
 
